@@ -285,7 +285,9 @@ def gen_op(rng, advancing: bool):
     elif kind == "load_state_dict":
         arg = [str(F(rng.randrange(0, 4096), 8)) for _ in range(3)]
     elif kind == "sleep":
-        arg = str(F(rng.randrange(0, 64), 4))
+        # from sub-millisecond sleeps (a sleep is never rounded away) to many seconds
+        arg = str(F(rng.randrange(0, 64), 4)) if rng.random() < 0.7 else \
+            str(F(rng.randrange(1, 64), rng.choice([1 << 10, 1 << 14, 1 << 20])))
     script = []
     if advancing and rng.random() < 0.7:
         script = [rng.choice(["0", "1/8", "1/4", "1"]) for _ in range(6)]
@@ -345,6 +347,70 @@ def suite_random(ctx: Ctx) -> SuiteResult:
             res.disagreements.append(d)
         if len(res.violations) > 20 or len(res.disagreements) > 20:
             break
+    return res
+
+
+def run_float_case(case: dict):
+    """Float regime (monitor only, no model line): an epoch-sized real clock, a small time scale and
+    very many reads a fraction of a millisecond apart, optionally with pause/resume/export in between.
+    Each read must be within a few units in the last place of scale x un-paused real time: a clock that
+    accumulates per-read increments loses them to rounding and stalls."""
+    import math
+    fake = FakeStdTime()
+    fake.now = F(case["start"])
+    fake.begin_op([])
+    ctl = new_controller(fake)
+    fake.end_op()
+    scale = F(case["scale"])
+    ctl.set_time_scale(float(scale))
+    v0 = {s: F(getattr(ctl, s)()) for s in SRCS}
+    ideal = dict(v0)
+    paused = False
+    reanchors = 1
+    violations = []
+    gap = F(case["gap"])
+    for k in range(case["reads"]):
+        fake.now += gap
+        if not paused:
+            for s in SRCS:
+                ideal[s] += scale * gap
+        ev = case.get("events", {}).get(str(k))
+        if ev == "pause":
+            ctl.pause(); paused = True; reanchors += 1
+        elif ev == "resume":
+            ctl.resume(); paused = False; reanchors += 1
+        elif ev == "state_dict":
+            ctl.state_dict(); reanchors += 1
+        s = SRCS[k % 3]
+        v = F(getattr(ctl, s)())
+        tol = F(math.ulp(float(v))) * (4 + 2 * reanchors) + F(math.ulp(float(BASES[s] + fake.now))) * scale * 2
+        if abs(v - ideal[s]) > tol:
+            violations.append(Violation(
+                "clock:float-regime:drift",
+                f"read #{k} of {s}(): {float(v)!r}, but scale x un-paused real time gives "
+                f"{float(ideal[s])!r} (off by {float(v - ideal[s]):.3e}, tolerance {float(tol):.3e}; "
+                f"scale {case['scale']}, {case['gap']} s between reads)", {"float": case}))
+            break
+    return violations
+
+
+def suite_float(ctx: Ctx) -> SuiteResult:
+    res = SuiteResult("clock-float-regime",
+                      rule="epoch-sized real clock, time scales 2^-10..2^-16, 3000-20000 reads 2^-14..2^-12 s "
+                           "apart, some with pause/resume/state_dict in between; monitor only (IEEE rounding "
+                           "is not modelled): every read within a few ulp of scale x un-paused real time; "
+                           "non-trivial = all")
+    for scale in ["1/1024", "1/8192", "1/65536"]:
+        for gap in ["1/16384", "1/4096"]:
+            for events in [{}, {"500": "pause", "900": "resume", "1500": "state_dict", "2000": "pause",
+                                "2001": "resume"}]:
+                case = {"start": "1700000000", "scale": scale, "gap": gap,
+                        "reads": ctx.n(3000, 20000), "events": events}
+                vs = run_float_case(case)
+                res.evaluations += 1
+                res.nontrivial.add((scale, gap, bool(events)))
+                res.violations += vs
+    res.sample(case)
     return res
 
 
@@ -410,6 +476,10 @@ def replay(ctx: Ctx, payload: dict) -> SuiteResult:
     if isinstance(case, dict) and case.get("kind") == "conc":
         import c06_conc
         return c06_conc.replay_concurrent(ctx, case)
+    if isinstance(case, dict) and "float" in case:
+        res.evaluations = 1
+        res.violations = run_float_case(case["float"])
+        return res
     vs, d, tr = run_case(case, ctx.driver)
     res.evaluations = 1
     res.violations = vs
@@ -430,7 +500,7 @@ if __name__ == "__main__":
                            "Pamiq.Clock.rate_between", "Pamiq.Clock.sleep_len",
                            "Pamiq.Clock.load_continues", "Pamiq.Clock.setScale_slip",
                            "Pamiq.Clock.clock_calls_atomic"],
-        suites=[suite_exhaustive, suite_random, c06_conc.suite_concurrent], search=search, replay=replay,
+        suites=[suite_exhaustive, suite_random, suite_float, c06_conc.suite_concurrent], search=search, replay=replay,
         assumptions=["IEEE-754 rounding is not modelled: cases use dyadic values on which every "
                      "float operation of time.py is exact, and are compared for equality",
                      "the real clock never steps backwards",
